@@ -28,7 +28,7 @@ EXPLANATION = (
 NOT_DECIDED = ["decoded header / address / body values", "date conversion", "charset fallbacks", "that mailparser and the stdlib parser agree on a given message",
                "attachments whose MIME type is generic (application/octet-stream) are skipped although their name is supported (is_supported_mime_type gate, documented behaviour)"]
 TRUSTED = ["email.message.Message.walk / get_payload(decode=True) / get_filename, mailparser's attachment dictionaries, re module semantics"]
-FLOORS = {"C16-SIB": 27, "C16-ATT": 6, "C16-ORDER": 2, "C16-SEP": 36, "C16-ROUTE": 5, "C16-BYTES": 6}
+FLOORS = {"C16-SIB": 27, "C16-ATT": 6, "C16-ORDER": 2, "C16-SEP": 36, "C16-ROUTE": 5, "C16-BYTES": 8}
 
 EML = X + "mail/eml_email_extractor.py"
 MBOX = X + "mail/mbox_email_extractor.py"
@@ -384,6 +384,27 @@ def rule_bytes(ctx: Ctx) -> RuleReport:
                 if d in BANNED:
                     rep.fail(Finding("C16-BYTES", rel, fi.qual, f"banned API {d}", BANNED[d], line=c.lineno))
         rep.ok({"module": rel, "banned_apis": "none of " + ", ".join(sorted(BANNED))})
+    # mailparser's attachment dictionaries: the name is `filename` (the decoded name as sent); `safe_filename` is a basename made safe
+    # for writing to disk ('Invoices 10/2024.csv' -> '2024.csv')
+    MP_KEYS = {"filename": "filename", "mime_type": "mail_content_type"}
+    em = ctx.p.func(EML, "_read_eml_format")
+    for c in _ctor_calls(em.node, "EmailAttachment"):
+        for k in c.keywords:
+            if k.arg not in MP_KEYS:
+                continue
+            v = k.value
+            for _ in range(3):
+                if isinstance(v, ast.Name):
+                    defs = [a.value for a in walk_own(em.node) if isinstance(a, ast.Assign) and len(a.targets) == 1 and isinstance(a.targets[0], ast.Name) and a.targets[0].id == v.id]
+                    if len(defs) != 1:
+                        break
+                    v = defs[0]
+            first = v.values[0] if isinstance(v, ast.BoolOp) and isinstance(v.op, ast.Or) else v
+            keyc = first.args[0].value if isinstance(first, ast.Call) and isinstance(first.func, ast.Attribute) and first.func.attr == "get" and first.args and isinstance(first.args[0], ast.Constant) else None
+            if keyc == MP_KEYS[k.arg]:
+                rep.ok({"eml_attachment_field": k.arg, "mailparser_key": keyc})
+            else:
+                rep.fail(Finding("C16-BYTES", EML, em.qual, f"{k.arg} from {keyc!r}", f"the attachment's {k.arg} is taken from mailparser's `{keyc}` instead of `{MP_KEYS[k.arg]}`" + (": safe_filename is a basename made safe for disk, 'Invoices 10/2024.csv' becomes '2024.csv' and the .eml and .mbox readers report different names for the same message" if k.arg == "filename" else ""), line=k.value.lineno))
     if n_ctor < 3:
         raise AnalysisError(f"C16-BYTES: only {n_ctor} functions build EmailAttachment (3 confirmed)")
     return rep
